@@ -29,12 +29,13 @@ func init() {
 		Rule: "explicit-state breadth-first search on the real objects: for each of the 15 packet types (+TopicFilter, UserProperties) the alphabet is every public setter/adder with a small argument domain (zero/empty/false, one or two non-zero values, both booleans, four different will messages, QoS 0..3); " +
 			"from four initial states (constructor value, zero value &T{}, a full packet, the packet decoded from the full packet's frame) all call sequences up to depth 3 (quick; 2 from the non-constructor states) / 4 (thorough; 3) are executed, one level deeper for types whose alphabet has at most 16 operations; a state is the real object reached by replaying the path on a fresh object and is identified by the deep digest of its concrete object graph (deduplication can therefore not merge states with different futures). " +
 			"In every state reached, every public accessor (found by reflection, so new accessors are covered), every HasFlag bit and the user-property list must equal the record-of-fields model (assignment for setters, append for adders, derived-flag rules from the property text); in every state whose packet is well formed the frame written by WriteTo, read by the specification decoder, must carry the same values. " +
+			"Contents: every string setter of every type (found by reflection) is called once, from the constructor value and from the full packet, with each of the special contents (every ASCII punctuation character, blanks at either end, short structured strings) and each token and token composition mined from the tree under test (a setter that parses its argument has its keywords in the source): the model changes the named field only. " +
 			"states = distinct concrete states, transitions = setter calls executed from expanded states, every trace runs on the implementation.",
 		Assumptions: []string{
 			"the model's initial record is the observation of the initial object (constructor defaults are C01/C02's business); every later value is predicted by the model alone",
 			"SetWill(nil), odd AddUserProp argument counts and modifying a will after attaching it are outside the domain",
 		},
-		Run:    func(x *core.Ctx) { runE2Setters(x, c12Visit) },
+		Run:    func(x *core.Ctx) { runC12Contents(x, c12Visit); runE2Setters(x, c12Visit) },
 		Replay: replayC12,
 	})
 }
@@ -718,7 +719,97 @@ func replayE2(visit e2Visit, name, init string, path []int) *core.Finding {
 	return nil
 }
 
+// stringSetters lists the methods SetX(string) of q that have an accessor X() string.
+func stringSetters(q any) []string {
+	var out []string
+	v := reflect.ValueOf(q)
+	for i := 0; i < v.NumMethod(); i++ {
+		name := v.Type().Method(i).Name
+		mt := v.Method(i).Type()
+		if !strings.HasPrefix(name, "Set") || mt.NumIn() != 1 || mt.In(0).Kind() != reflect.String {
+			continue
+		}
+		get := v.MethodByName(strings.TrimPrefix(name, "Set"))
+		if !get.IsValid() || get.Type().NumIn() != 0 || get.Type().NumOut() != 1 || get.Type().Out(0).Kind() != reflect.String {
+			continue
+		}
+		out = append(out, name)
+	}
+	return out
+}
+
+func c12Content(visit e2Visit, s subject, init, method, content string) *core.Finding {
+	base := alphabet(s.Name)
+	q := makeInit(s, base, init)
+	if q == nil {
+		return nil
+	}
+	model := observeSubject(q)
+	op := setOps(method, strings.TrimPrefix(method, "Set"), -1, content)
+	if res := guarded(0, func() { op[0].Call(q) }); res.Panic != "" {
+		return &core.Finding{Class: s.Name + "/setter-panic", Detail: fmt.Sprintf("%s from %s: %s(%q) panicked: %s", s.Name, init, method, content, res.Panic)}
+	}
+	op[0].Model(model)
+	// derived flags (user name flag and the like) follow their own rules,
+	// which the search over the setter alphabets checks; here only "the
+	// field named by the call, and no other field"
+	var now KV
+	if res := guarded(0, func() { now = observeSubject(q) }); res.Panic == "" {
+		for k := range model {
+			if strings.HasPrefix(k, "HasFlag(") {
+				model[k] = now[k]
+			}
+		}
+	}
+	return visit(s, init, op, []int{0}, q, model)
+}
+
+// runC12Contents: one call of every string setter with every special and
+// mined content.
+func runC12Contents(x *core.Ctx, visit e2Visit) {
+	for _, s := range subjects() {
+		probe := s.New()
+		for _, method := range stringSetters(probe) {
+			if !x.Mine() {
+				continue
+			}
+			for ci, content := range gen.AllContents() {
+				for _, init := range []string{"new", "full"} {
+					s, method, content, init, ci := s, method, content, init, ci
+					x.Eval("contents." + s.Name)
+					x.R.States++
+					x.R.Transitions++
+					if f := c12Content(visit, s, init, method, content); f != nil {
+						x.Report(f, func() core.Case {
+							return core.Case{Harness: "c12.content", Params: map[string]any{"type": s.Name, "init": init, "method": method, "ci": ci}}
+						}, func() *core.Finding { return c12Content(visit, s, init, method, content) })
+					}
+				}
+			}
+			if x.Expired() {
+				return
+			}
+		}
+	}
+}
+
+func replayContent(visit e2Visit, c core.Case) *core.Finding {
+	for _, s := range subjects() {
+		if s.Name == paramStr(c.Params, "type") {
+			all := gen.AllContents()
+			if ci := paramInt(c.Params, "ci"); ci < len(all) {
+				return c12Content(visit, s, paramStr(c.Params, "init"), paramStr(c.Params, "method"), all[ci])
+			}
+			return nil
+		}
+	}
+	return nil
+}
+
 func replayC12(c core.Case) *core.Finding {
+	if c.Harness == "c12.content" {
+		return replayContent(c12Visit, c)
+	}
 	return replayE2(c12Visit, paramStr(c.Params, "type"), paramStr(c.Params, "init"), c.Choices)
 }
 
